@@ -227,12 +227,12 @@ def r2_progress(chk, fx):
                         stack.append(s)
             chk.instance("C14/R2", "%s: every path round the loop at line %s consumes input" % (R.short_fn(name), sp.get("l")), name, loc_of(sp),
                          holds=not cyc, key="C14/R2 %s loop-without-progress" % R.short_fn(name))
-    chk.floor("C14/R2 reader loops (MIR)", n, 23)
+    chk.floor("C14/R2 reader loops (MIR)", n, 15)
 
 
 def r3_catch_all(chk, fx):
     loops = R.reader_loops(fx)
-    chk.floor("C14/R3 reader matches", len(loops), 23)
+    chk.floor("C14/R3 reader matches", len(loops), 15)
     for lp in loops:
         ca = [a for a in lp.arms if a.catch_all]
         ok = len(ca) == 1 and ca[0] is lp.arms[-1] and "returnResult::Err(" in ca[0].body_text() and "UnexpectedXmlEvent" in ca[0].body_text()
